@@ -381,7 +381,7 @@ import c01_wide as W  # noqa: E402
 
 
 def gen_wide(rng, tier):
-    """universes of F1 + nillable + tokens + wrapper + sequence + Attributes maps + init=False fields + subclass instances; instances as generated and with strings
+    """universes of F1 + nillable + tokens + wrapper + sequence + Attributes maps + init=False fields + subclass instances + wildcards; instances as generated and with strings
     pushed into the excluded regions"""
     for desc, value in W.CORPUS:
         u = B.Universe(desc)
@@ -395,6 +395,8 @@ def gen_wide(rng, tier):
             except Exception:  # noqa: BLE001
                 continue
             val = u.to_val(obj)
+            if '"any"' in json.dumps(val) and rng.random() < 0.6:
+                val = W.normal_generic(val)
             if rng.random() < 0.3:
                 val = W.spoil(rng, val)
             yield {"ctx": ctx, "value": val, "clazz": "Root", "desc": desc, "_uni": u.modname, "feat": W.FEAT,
@@ -411,8 +413,9 @@ def impl_valFN(a):
 
 
 CORRS.append(
-    Corr("c01.valFN", gen_wide, impl_valFN, classify=lambda a, o: json.dumps(o.get("ok"), sort_keys=True),
-         describe="hypotheses ctxOK/valOK of bind_generate_F2..F7 on exported real universes and instances vs the oracle's "
+    Corr("c01.valFN", gen_wide, impl_valFN,
+         classify=lambda a, o: json.dumps(o.get("ok"), sort_keys=True) + (" +generic" if '"any"' in json.dumps(a["value"]) else ""),
+         describe="hypotheses ctxOK/valOK of bind_generate_F2..F8 on exported real universes and instances vs the oracle's "
                   "description of the excluded regions")
 )
 
@@ -529,12 +532,12 @@ LEVEL_TEXT = (
     "Partial. generate -> abstract writer -> parseRoot is the identity, with no converter warning, for every parser config, both "
     "settings of ignore_default_attributes and every Unicode Env: bind_generate_F1 / bind_generate_anyNamespaces (Props/C01.lean: "
     "attributes, primitive- and model-typed elements optional/required/list, a text var, every combination of class and field "
-    "namespaces) and bind_generate_F2..F7 / bind_generate_FN (Props/C01Wide.lean: + nillable vars and classes, token lists, wrapper "
+    "namespaces) and bind_generate_F2..F8 / bind_generate_FN (Props/C01Wide.lean: + nillable vars and classes, token lists, wrapper "
     "lists, sequence groups, one Attributes map per class, init=False fields, instances of proper subclasses with xsi:type resolved "
-    "through the prefix map), under decidable hypotheses ctxOK (universe) and valOK/valOKI (instance) that the driver evaluates on "
+    "through the prefix map, one list wildcard per class holding generic elements in the parser's normal form), under decidable hypotheses ctxOK (universe) and valOK/valOKI (instance) that the driver evaluates on "
     "exported real universes; each remaining value-level exclusion that is a defect has a machine-checked witness replayed on the "
-    "real code, the eight defects repaired by repo-patches c01g-01..08 have *_repaired theorems. Outside these fragments (wildcards, "
-    "mixed content, anyType, compound fields, unions, QName-typed and non str/int/bool values, DerivedElements, a text var next to "
+    "real code, the eight defects repaired by repo-patches c01g-01..08 have *_repaired theorems. Outside these fragments (single "
+    "wildcards, tails of generic elements, mixed content, anyType, compound fields, unions, QName-typed and non str/int/bool values, DerivedElements, a text var next to "
     "child elements) the executable model is compared with the real generator, parser and the four writer x handler combinations, "
     "but no round-trip theorem is claimed yet."
 )
